@@ -6,7 +6,10 @@ Line-protocol front end of the C16 model (requests after the leading `C16` field
   seq  <objects>  <ops>
      objects : `;`-separated   L:v,v,…  |  M:hexkey=v,…  |  S:v,…  |  B:hexbytes
      ops     : `;`-separated   name,arg,arg,…      (handles are decimal object numbers)
-     values  : n | t | f | i<int> | y<byte> | s<hex> | r<handle> | _ (absent)
+     values  : n | t | f | i<int> | y<byte> | d<2·float> | s<hex> | r<handle> | _ (absent)
+               (d4 is the float 2.0, d3 is 1.5: floats are half-integers of small magnitude)
+     iterators and loops:  inew,r  inext,it  irest,it
+               lfor,r,idx|noidx,none|grow|poplast|removecur|clear|setnext|insertfront,arg|_
   reply: per step, `|`-separated:  implRes ; implState ; tag ; (= | specRes ; specState)
      builtins of the "operand untouched, result independent" class (Risor.C16.BOp):
        sortedby,r,lt|gt|le|ge|always|never,k|_   xsorted,r  xreversed,r  tolist,r  toset,r
@@ -29,6 +32,7 @@ def parseVal (s : String) : Option Val :=
   | ['f'] => some (.bool false)
   | 'i' :: rest => (parseInt (String.ofList rest)).map .int
   | 'y' :: rest => (String.ofList rest).toNat?.map .byte
+  | 'd' :: rest => (parseInt (String.ofList rest)).map .flt
   | 's' :: rest => (fromHexChars rest).map .str
   | 'r' :: rest => (String.ofList rest).toNat?.map .ref
   | _ => none
@@ -89,8 +93,23 @@ def parsePred (s : String) : Option Pred :=
 def parseOptNat (s : String) : Option (Option Nat) :=
   if s = "_" then some none else s.toNat?.map some
 
+def parseBody (name arg : String) : Option Body :=
+  match name with
+  | "none" => some .none
+  | "grow" => arg.toNat?.map .grow
+  | "poplast" => some .popLast
+  | "removecur" => some .removeCur
+  | "clear" => some .clear
+  | "setnext" => (parseVal arg).map .setNext
+  | "insertfront" => arg.toNat?.map .insertFront
+  | _ => none
+
 def parseOp (s : String) : Option Op :=
   match s.splitOn "," with
+  | ["inew", r] => do pure (.iNew (← r.toNat?))
+  | ["inext", it] => do pure (.iNext (← it.toNat?))
+  | ["irest", it] => do pure (.iRest (← it.toNat?))
+  | ["lfor", r, w, b, arg] => do pure (.lFor (← r.toNat?) (w == "idx") (← parseBody b arg))
   | ["sortedby", r, f, k] => do pure (.bi (.sortedBy (← r.toNat?) (← parseCmpFn f) (← parseOptNat k)))
   | ["xsorted", r] => do pure (.bi (.sorted (← r.toNat?)))
   | ["xreversed", r] => do pure (.bi (.reversed (← r.toNat?)))
@@ -175,6 +194,7 @@ def renderVal (h : Heap) (fuel : Nat) (v : Val) : String :=
   | .bool false => "f"
   | .int i => "i" ++ toString i
   | .byte n => "y" ++ toString n
+  | .flt t => "d" ++ toString t
   | .str s => "s" ++ hexOf s
   | .ref r =>
     match fuel with
@@ -185,6 +205,7 @@ def renderVal (h : Heap) (fuel : Nat) (v : Val) : String :=
       | .map kvs => "M{" ++ ",".intercalate ((sortedKVs kvs).map (fun p => hexOf p.1 ++ "=" ++ renderVal h f p.2)) ++ "}"
       | .set xs => "S{" ++ ",".intercalate ((sortSet xs).map (renderVal h f)) ++ "}"
       | .bytes a o l => "B" ++ hexOf (bytesContent h a o l)
+      | .iter _ _ => "I"      -- a list iterator shows through `next` / `list(it)` only
 
 def renderState (h : Heap) : String :=
   " ".intercalate ((List.range h.objs.length).map (fun r => renderVal h (fuelOf h) (.ref r)))
